@@ -36,6 +36,8 @@ type PKI struct {
 	RootOtherKey *Identity // certificate issued by R for AttackerSign's subject name but for a different key (Key is that key)
 	ExpiredRoot  *Identity // root whose validity ended before NotBefore+1y, with a leaf valid longer
 	ExpiredLeaf  *Identity
+	SignerPKCS1  *Identity // leaf issued by R with SHA256-RSA (PKCS#1 v1.5) as the certificate's signature algorithm
+	SignerPSS384 *Identity // leaf issued by R with SHA384-RSAPSS as the certificate's signature algorithm
 }
 
 // CertSpec parameterises certificate creation.
@@ -100,6 +102,8 @@ func NewPKI(nb time.Time) *PKI {
 	p.RootOtherKey = &Identity{Key: p.AttackerSign.Key, Cert: other.Cert} // cert does not match the key that signs
 	p.ExpiredRoot = Mint(CertSpec{CN: "short root", Serial: 1, NotBefore: nb, NotAfter: nb.AddDate(0, 6, 0), IsCA: true, KeyUsage: ca}, NewKey(), nil)
 	p.ExpiredLeaf = Mint(CertSpec{CN: "leaf of short root", Serial: 2, NotBefore: nb, NotAfter: nb.AddDate(5, 0, 1), KeyUsage: ds}, NewKey(), p.ExpiredRoot)
+	p.SignerPKCS1 = Mint(CertSpec{CN: "signer pkcs1 cert", Serial: 20, NotBefore: nb, NotAfter: nb.AddDate(5, 0, 1), KeyUsage: ds, SigAlg: x509.SHA256WithRSA}, NewKey(), p.Root)
+	p.SignerPSS384 = Mint(CertSpec{CN: "signer pss384 cert", Serial: 21, NotBefore: nb, NotAfter: nb.AddDate(5, 0, 1), KeyUsage: ds, SigAlg: x509.SHA384WithRSAPSS}, NewKey(), p.Root)
 	return p
 }
 
